@@ -19,7 +19,7 @@ MANIFEST = {
     "technique": "Coq proof (handler inversion + exact integer inequalities per primitive + induction over histories) + model/implementation correspondence at handler level (real handlers in the sim runtime)",
 }
 THEOREMS = ["C01_step", "C01_allowance_is", "C01_accrual_allowance", "C01_wellformedness_preserved", "C01_HOk2_implies_HOk", "C01_hypotheses_checkable",
-            "C01_history", "C01_history_given_wellformed_states"]
+            "C01_history", "C01_history_given_wellformed_states", "C01_purge_gap"]
 RULE = ("instruction sequences (deposit incl. up-to-limit, withdraw / withdraw-all, borrow with origination fee, repay / repay-all, "
         "close_balance, liquidate, bankruptcy, accrue, collect_fees, clock advances, price changes) by 1-4 users over 1-3 banks with "
         "SPL / Token-2022 / transfer-fee mints, seven-point curves and fee settings drawn at random; scenario stream (70%) builds "
